@@ -13,8 +13,14 @@ Definition lex_approx (a b : outcome) : Prop :=
 Definition map_outcome (g : list ev -> list ev) (o : outcome) : outcome :=
   match o with Done x => Done (g x) | OutOfFuel => OutOfFuel end.
 
-(* a column map as the property means it: strictly monotone, fixing column 0 *)
-Definition column_map (f : nat -> nat) : Prop := (forall a b, a < b -> f a < f b) /\ f 0 = 0.
+(* a column map as the property means it: strictly monotone ON THE COLUMNS THAT OCCUR (the set W, which
+   contains column 0), fixing column 0.  x2 and x4 are monotone everywhere; 4 -> 2 spaces (halving) is monotone
+   on the even columns. *)
+Definition column_map (W : nat -> Prop) (f : nat -> nat) : Prop :=
+  (forall a b, W a -> W b -> a < b -> f a < f b) /\ W 0 /\ f 0 = 0.
+
+Definition every_column : nat -> Prop := fun _ => True.
+Definition even_column : nat -> Prop := fun w => exists k, w = 2 * k.
 
 (* the Indent/Dedent/Newline skeleton of a token stream *)
 Definition skeleton (evs : list ev) : list tok :=
